@@ -109,15 +109,13 @@ func shortFunc(line string) string {
 
 // raceSignatures extracts, per "WARNING: DATA RACE" block, the first pentops/j5 function (outside
 // this harness) of the two conflicting accesses.
-func raceSignatures(stderr string) (sigs []string, first string) {
+func raceSignatures(stderr string) (sigs []string, report map[string]string) {
 	blocks := strings.Split(stderr, "==================")
 	seen := map[string]bool{}
+	report = map[string]string{}
 	for _, b := range blocks {
 		if !strings.Contains(b, "WARNING: DATA RACE") {
 			continue
-		}
-		if first == "" {
-			first = b
 		}
 		// name the mutation: the first pentops/j5 function (outside this harness) on the stack of
 		// the write access (of the two, when both are writes, the alphabetically first)
@@ -154,6 +152,7 @@ func raceSignatures(stderr string) (sigs []string, first string) {
 		if !seen[sig] {
 			seen[sig] = true
 			sigs = append(sigs, sig)
+			report[sig] = b // the report this signature was read from
 		}
 	}
 	return
@@ -187,7 +186,7 @@ func (r *raceImpl) Exec(h *vh.H, op string) string {
 		h.Fail(sig, op, detail)
 	}
 	se := stderr.String()
-	sigs, first := raceSignatures(se)
+	sigs, reports := raceSignatures(se)
 	// without the lock every function of a build races; report the cache's own mutation sites
 	// first and at most three sites per child
 	sort.SliceStable(sigs, func(a, b int) bool {
@@ -198,7 +197,7 @@ func (r *raceImpl) Exec(h *vh.H, op string) string {
 		sigs = sigs[:3]
 	}
 	for _, s := range sigs {
-		fail(s, "race detector report:\n"+first)
+		fail(s, "race detector report:\n"+tail(reports[s], 6000))
 	}
 	if i := strings.Index(se, "fatal error: concurrent map"); i >= 0 {
 		fail("fatal:concurrent-map-access", tail(se[i:], 1500))
